@@ -728,8 +728,9 @@ type fcase struct {
 	NoStats bool   `json:"no_page_statistics,omitempty"`
 	Copy    bool   `json:"copy_path,omitempty"`
 	Sort    string `json:"sorting,omitempty"` // "", "asc", "desc": declared on column 0
-	// SkipBounds: parquet.SkipPageBounds on column 0 (no bounds in the footer for it)
+	// SkipBounds: parquet.SkipPageBounds on column SkipCol (no bounds in the footer for it)
 	SkipBounds bool `json:"skip_page_bounds,omitempty"`
+	SkipCol    int  `json:"skip_col,omitempty"`
 }
 
 func colName(i int) string { return fmt.Sprintf("c%02d", i) }
@@ -817,7 +818,7 @@ func (fc *fcase) options(s *parquet.Schema) []parquet.WriterOption {
 		opts = append(opts, parquet.DataPageStatistics(false))
 	}
 	if fc.SkipBounds {
-		opts = append(opts, parquet.SkipPageBounds(colName(0)))
+		opts = append(opts, parquet.SkipPageBounds(colName(fc.SkipCol)))
 	}
 	switch fc.Sort {
 	case "asc":
@@ -1067,7 +1068,7 @@ func checkFile(c *core.Ctx, fc *fcase, data []byte, label string) bool {
 			k := kindByName[col.Kind]
 			typ := cc.Type()
 			where := fmt.Sprintf("row group %d column %d (%s %s dict=%v)", rgi, ci, col.Kind, col.Rep, col.Dict)
-			skipBounds := fc.SkipBounds && ci == 0
+			skipBounds := fc.SkipBounds && ci == fc.SkipCol
 			cm := &md.RowGroups[rgi].Columns[ci].MetaData
 			pages, perr := readPages(cc)
 			if perr != "" {
@@ -1251,9 +1252,14 @@ func checkFile(c *core.Ctx, fc *fcase, data []byte, label string) bool {
 				continue
 			}
 			np := len(pages)
-			if ix.NumPages() != np || len(raw.NullPages) != np || len(raw.NullCounts) != np || len(raw.MinValues) != np || len(raw.MaxValues) != np {
+			if len(raw.NullPages) != np || len(raw.NullCounts) != np || len(raw.MinValues) != np || len(raw.MaxValues) != np {
 				viol("index-misaligned", fmt.Sprintf("%s: %d pages, index has %d null_pages %d null_counts %d min_values %d max_values", where, np,
 					len(raw.NullPages), len(raw.NullCounts), len(raw.MinValues), len(raw.MaxValues)))
+				ok = false
+				continue
+			}
+			if ix.NumPages() != np {
+				viol("index-not-read", fmt.Sprintf("%s: ColumnChunk.ColumnIndex() has %d pages, the column index stored in the file has %d", where, ix.NumPages(), np))
 				ok = false
 				continue
 			}
@@ -1451,6 +1457,10 @@ func fileShrink(c *core.Ctx, fc *fcase) *fcase {
 			if t.Sort != "" && i != 0 {
 				t.Sort = ""
 			}
+			if t.SkipBounds && i != cur.SkipCol {
+				t.SkipBounds = false
+			}
+			t.SkipCol = 0
 			if fails(&t) {
 				cur = t
 				break
@@ -1594,6 +1604,9 @@ func randFileCase(c *core.Ctx, i int) *fcase {
 		col.Rows = genColumn(c, k, rep, n)
 		fc.Cols = append(fc.Cols, col)
 	}
+	if fc.SkipBounds {
+		fc.SkipCol = c.Rng.Intn(len(fc.Cols))
+	}
 	return fc
 }
 
@@ -1670,6 +1683,9 @@ func runC05(c *core.Ctx) {
 		{PageBuf: 4096, Limit: 16, Batch: 3, V2: true, Copy: true, Cols: []fcol{mk("float", "opt", true, rowsOf(nan32, one32, "N", five32))}},
 		// SkipPageBounds: no fake bounds may reach the column index
 		{PageBuf: 1, Limit: 16, Batch: 2, SkipBounds: true, Cols: []fcol{mk("int32", "req", false, rowsOf("5", "7", "9"))}},
+		// ... and the other columns keep their column index, wherever the skipped column is
+		{PageBuf: 1, Limit: 16, Batch: 2, SkipBounds: true, SkipCol: 0, Cols: []fcol{mk("int32", "req", false, rowsOf("5", "7", "9")), mk("int32", "req", false, rowsOf("1", "2", "3"))}},
+		{PageBuf: 1, Limit: 16, Batch: 2, SkipBounds: true, SkipCol: 1, Cols: []fcol{mk("int32", "req", false, rowsOf("5", "7", "9")), mk("int32", "req", false, rowsOf("1", "2", "3"))}},
 	}
 	for i := range corpusFiles {
 		fileRun(c, &corpusFiles[i])
